@@ -699,6 +699,63 @@ fn judge_image(out: &mut CaseOut, base: &Base, image: &Image, damaged: &PathBuf,
         let _ = (complete, after);
         out.add("compactions_over_damaged_tables", 1);
     }
+    // Life goes on after the damage: when everything could be read, the database that opened on
+    // the damaged image takes three more writes (an overwrite, a deletion, a new key), is closed
+    // cleanly and opened again with log reuse on. Whatever the first recovery made of the damage,
+    // those acknowledged writes and the state it had shown must be what comes back ("everything it
+    // does return is still correct" - a deleted key must not return, an overwritten value must not
+    // resurface).
+    if !any_read_error && out.violations.len() == violations_at_start && sess.bad_state().is_none() && watch::bg_panics().is_empty()
+        && (file_class != PathClass::Table || rng.chance(0.25))
+    {
+        if let Ok(entries) = sess.scan(None) {
+            let mut expected: Map = entries.into_iter().collect();
+            let mut ops: Vec<crate::session::WriteOp> = vec![];
+            let keys: Vec<Vec<u8>> = expected.keys().cloned().collect();
+            if let Some(k) = keys.first() {
+                ops.push((k.clone(), Some(b"after-damage:overwritten".to_vec())));
+            }
+            if let Some(k) = keys.last().filter(|_| keys.len() >= 2) {
+                ops.push((k.clone(), None));
+            }
+            ops.push((b"~after-damage-new-key".to_vec(), Some(b"after-damage:new".to_vec())));
+            let mut refused = false;
+            for op in ops {
+                crate::session::apply_to_map(&mut expected, std::slice::from_ref(&op));
+                if sess.write(vec![op]).is_err() {
+                    refused = true;
+                    break;
+                }
+            }
+            if !refused {
+                let cfg2 = Config { reuse: true, ..cfg };
+                match sess.reopen(cfg2) {
+                    Err(e) => {
+                        // refusing to open is detection, not service of wrong data
+                        let _ = e;
+                        out.add("reopen_after_post_damage_writes_refused", 1);
+                        return Observed { outcome: if any_read_error { "read-error" } else { "harmless" } };
+                    }
+                    Ok(()) => match sess.scan(None) {
+                        Ok(entries) => {
+                            let got: Map = entries.into_iter().collect();
+                            out.add("post_damage_write_rounds", 1);
+                            if got != expected {
+                                let lost: Vec<String> = expected.iter().filter(|(k, v)| got.get(*k) != Some(*v)).take(4).map(|(k, v)| format!("{} should be {}", show(k), show(&v[..v.len().min(24)]))).collect();
+                                let extra: Vec<String> = got.iter().filter(|(k, v)| expected.get(*k) != Some(*v)).take(4).map(|(k, v)| format!("{} is {}", show(k), show(&v[..v.len().min(24)]))).collect();
+                                let kind = if got.iter().any(|(k, _)| !expected.contains_key(k)) { "deleted-key-resurrected" } else if lost.iter().any(|l| l.contains("after-damage")) { "acknowledged-write-lost" } else { "earlier-state-changed" };
+                                out.violate(format!("C15/wrong-data-served/after-writes-and-clean-reopen/{kind}/{sig_loc}"),
+                                    json!({"ctx": ctx, "missing_or_different": lost, "unexpected": extra, "reuse_log_files_at_first_open": cfg.reuse}));
+                            }
+                        }
+                        Err(_) => {
+                            out.add("reopen_after_post_damage_writes_read_error", 1);
+                        }
+                    },
+                }
+            }
+        }
+    }
     let outcome = if any_read_error {
         "read-error"
     } else if wal_damage && state != base.truth {
